@@ -37,7 +37,7 @@ fn opt_s(o: &Option<String>) -> Value {
 }
 fn opt_u(o: Option<u64>) -> Value {
     match o {
-        Some(x) => json!(x),
+        Some(x) => json!(x.min(1_000_000_000)), // TLC integers are 32 bit (saturating projection, as for the stored epochs)
         None => json!(-1),
     }
 }
@@ -788,6 +788,10 @@ fn sc_many_farms_exact_thirds_long_farm(t: &mut Tracer) {
     w.claim(&b, None, &[]);
     w.claim(&c, Some(1), &[]);
     w.expand_farm(&e, "m-long", &lp2, coin(6, "uusd"), &[coin(6, "uusd")]);
+    // a farm whose last epoch is so far away that nobody can compute when it ends: it is not expired, and a stranger's next
+    // creation on the same LP token neither closes nor refunds it
+    mk(&mut w, &e, "far", &lp2, 3, 1_000_000_000_000_000, coin(1_000_000_000_000_000_000, "uweth"));
+    mk(&mut w, &d, "afterfar", &lp2, 3, 9, coin(6000, "uusdt"));
     // a farm emitting one unit per epoch, expanded by more epochs than a 64-bit counter holds: refused, not truncated
     mk(&mut w, &e, "one", &lp2, 3, 1003, coin(1000, "uusdt"));
     w.expand_farm(&e, "m-one", &lp2, coin(18_446_744_073_709_551_621, "uusdt"), &[coin(18_446_744_073_709_551_621, "uusdt")]);
